@@ -90,6 +90,16 @@ pub trait JobCostModel {
 //@end
 }
 
+// what #[auto_impl(&)] generates for references (R12)
+impl<T: JobCostModel + ?Sized> JobCostModel for &T {
+    open spec fn wf(&self) -> bool { (**self).wf() }
+    open spec fn cost(&self, n: int) -> int { (**self).cost(n) }
+    open spec fn least(&self, n: int) -> int { (**self).least(n) }
+    proof fn cost_props(&self) { (**self).cost_props(); }
+    fn cost_of_jobs(&self, n: usize) -> (r: Service) { (**self).cost_of_jobs(n) }
+    fn least_wcet(&self, n: usize) -> (r: Service) { (**self).least_wcet(n) }
+}
+
 //@item src/wcet/scalar.rs :: struct Scalar
 pub struct Scalar {
     /// The worst-case execution bound.
